@@ -12,6 +12,7 @@ import ast
 
 from ..cfg import known_falsy
 from ..model import self_attr, unparse, walk_body_shallow
+from .util import *  # noqa: F401,F403
 from .util import (case_reach, at, result_stored, aliases_of, call_name, call_recv, calls_in, chains_in, handler_exits, kwarg, names_in, need,
                    node_assign_value, norm, registrations, where)
 
